@@ -144,4 +144,16 @@ func c18(c *Ctx) {
 		r.Fatalf("anchor Estimate missing")
 	}
 	r.Floor("C18 constant rows", n, 12)
+	// the conversions never panic (nil offset, float conversions): panic obligations of every function of the clause
+	var entries []*ssa.Function
+	for _, nme := range []string{"rtp.(AbsCaptureTimeExtension).CaptureTime", "rtp.(AbsCaptureTimeExtension).EstimatedCaptureClockOffsetDuration",
+		"rtp.NewAbsCaptureTimeExtension", "rtp.NewAbsCaptureTimeExtensionWithCaptureClockOffset", "rtp.(*AbsSendTimeExtension).Estimate",
+		"rtp.NewAbsSendTimeExtension", "rtp.toNtpTime", "rtp.toTime"} {
+		if f := p.Func(nme); f != nil {
+			entries = append(entries, f)
+		} else {
+			r.Fatalf("anchor %s missing", nme)
+		}
+	}
+	boundsFor(c, "C18", entries)
 }
